@@ -146,8 +146,13 @@ class Ctx:
         known = load_findings()
         reported = set()
         # 1. oracle hits (real failing inputs)
-        for hit in self.oracle_hits[:200]:
+        pre_seen = set()
+        for hit in self.oracle_hits[:500]:
             case, detail = hit["case"], hit["detail"]
+            pre = prop.signature(case, detail) if hasattr(prop, "signature") else digest([case, detail])
+            if pre in pre_seen or len(pre_seen) >= 6:
+                continue  # one representative per (pre-shrink) signature, at most six
+            pre_seen.add(pre)
             if hasattr(prop, "shrink"):
                 try:
                     case, detail = prop.shrink(self, case, detail)
